@@ -49,10 +49,18 @@ pub fn run(k: &str, c: &Value) -> Value {
                 json!({"surf": spv, "closest": hp3(&pc), "max": wm, "tol": wt, "tol_id": wtt})
             }).collect();
             let idx = mesh.indices_in_tol(&qs, md, ma, None);
+            // the same cloud expressed in another frame together with the transform into the mesh's frame
+            let idx_frame = if c["frame"].is_null() { Value::Null } else {
+                let f = &c["frame"];
+                let t = Iso3::new(engeom::Vector3::new(fx(&f[0]), fx(&f[1]), fx(&f[2])), engeom::Vector3::new(fx(&f[3]), fx(&f[4]), fx(&f[5])));
+                let ti = t.inverse();
+                let others: Vec<Point3> = qs.iter().map(|q| ti * q).collect();
+                json!(mesh.indices_in_tol(&others, md, ma, Some(&t)))
+            };
             let normals: Vec<Value> = (0..mesh.faces().len()).map(|i| { let f = mesh.faces()[i]; let v = mesh.vertices();
                 let n = (v[f[1] as usize] - v[f[0] as usize]).cross(&(v[f[2] as usize] - v[f[0] as usize])); hv3(&n) }).collect();
             let _ = Point3::origin();
-            json!({"out": out, "in_tol": idx, "raw_normals": normals})
+            json!({"out": out, "in_tol": idx, "in_tol_frame": idx_frame, "raw_normals": normals})
         }
         _ => json!({"unknown": k}),
     }
